@@ -145,6 +145,7 @@ def C15(tier, rng):
     for n in list(range(0, 65)) + [65000, 65520]:
         rr = {'ty': OPT, 'payload': 0, 'ext': 0, 'ver': 0, 'do': 0, 'opts': [('pad', n)]}
         cs.append(Case('enc.rr %s' % prr(rr), 'enc-pad', exp=('RR', lower_text(prr(rr)))))
+    cs += rdata_limit_cases(only_opt=True)
     return cs
 
 # ---------------------------------------------------------------- C16
@@ -178,7 +179,7 @@ def C16(tier, rng):
     keys = [0, 1, 2, 3, 4, 5, 6, 7, 65534, 65535]
     for n in range(0, sz(tier, 4, 5)):
         for combo in itertools.product(keys, repeat=n):
-            if (n == 4 and rng.random() < 0.5) or (n == 3 and rng.random() < 0.3): continue
+            if n == 4 and rng.random() < 0.5: continue
             ps = [pw(k, PARAM_SAMPLES[k][rng.randrange(len(PARAM_SAMPLES[k]))]) for k in combo]
             for prio in ((1,) if n > 1 else (0, 1, 65535)):
                 cs.append(Case('dec.rr %s' % hx(svcb_rr(rng.choice([64, 65]), prio, b'\0', ps)), 'wire-order%d' % n))
@@ -248,7 +249,7 @@ def C17(tier, rng):
     cs += [c for c in sweep_enc_rr_cases(types=(APL, OPT)) if 'ecs:' in c.op or c.op.startswith('enc.rr RR 42 ')] + sweep_rr_wire_cases(types=(APL,))
     for fam, size in ((1, 4), (2, 16)):
         addrs = addr_grid(size)
-        prefixes = range(256) if tier == 'thorough' else sorted(set(list(range(0, 40)) + list(range(120, 136)) + [63, 64, 65, 255]))
+        prefixes = range(256) if tier == 'thorough' else sorted(set(list(range(0, 41)) + list(range(120, 138)) + list(range(40, 256, 8)) + [63, 64, 65, 254, 255]))
         for pfx in prefixes:
             for a in (addrs if tier == 'thorough' else addrs[:2] + rng.sample(addrs, 24)):
                 for alen in range(0, size + 2):
@@ -294,6 +295,12 @@ def C18(tier, rng):
             rr['f'] = [n if kind[0] == 'd' else v for (fname, kind), v in zip(TABLE[ty][2], rr['f'])]
         return rr
     variants = [base, base[1:], base[2:], (b'x',) + base, (b'HOST', b'Example', b'ORG'), (b'y', b'z') + base[1:]]
+    # the same with special-use names as owner / target suffix (mDNS `local`, reverse zones, `localhost` ...)
+    for ty in NEWTYPES:
+        for sfx in ((b'corp', b'local'), (b'LOCAL',), (b'2', b'0', b'192', b'in-addr', b'arpa'), (b'localhost',), (b'srv', b'onion'), (b'_tcp', b'local')):
+            for owner, n in (((b'_ldap', b'_tcp') + sfx, (b'dc1',) + sfx), ((b'o',) + sfx, sfx), (sfx, (b'x',) + sfx)):
+                q = {'name': sfx, 'qtype': 1, 'qclass': 1}
+                cs.append(enc_case(msg_with([{'ty': 1, 'name': (b'dc1',) + sfx, 'ttl': 0, 'cls': 1, 'f': [b'\1\2\3\4']}, rr_of(ty, n, owner)], qs=[q]), 'c18-special-use'))
     for ty in NEWTYPES:
         for n in variants:
             for pos in ('question', 'owner', 'rdata1035', 'same-owner', 'earlier-newtype'):
